@@ -26,12 +26,33 @@ def expected_tree(fresh_tree, before):
     return out
 
 
-def chain_case(runner, r, oc, reqs, pend, steps, kinds=("sm", "sm", "sm", "proto", "uml"), big=False):
-    model = genlib.rand_model(r, kinds, big)
+def drop_an_event(r, model):
+    """an event (one without parameters, if there is one) gets another name: its old name is gone from the model"""
+    m = json.loads(json.dumps(model))
+    evs = sorted({row[1] for row in m["tt"]})
+    plain = [e for e in evs if all(s[0] != e for s in m["iface"]["structs"])]
+    old = r.choice(plain or evs)
+    new = old + r.choice(["Renamed", "2", "X"])
+    for row in m["tt"]:
+        if row[1] == old:
+            row[1] = new
+    m["iface"]["structs"] = [[(new if s[0] == old else s[0]), s[1]] for s in m["iface"]["structs"]]
+    return m, "rename-event-directed"
+
+
+def chain_case(runner, r, oc, reqs, pend, steps, kinds=("sm", "sm", "sm", "proto", "uml"), big=False, directed=False):
+    model = genlib.rand_model(r, kinds, big) if not directed else genlib.rand_sm_model(r, big=big)
     with scratch() as base:
         outdir_arg, cwd = genlib.rand_outdir_spelling(r, base)
         real = os.path.join(base, "out")
         hist = dict(models=[model], outdir=outdir_arg, cwd=cwd, mutations=[], edits=[])
+        # one script, one Interface object: half of the chains hand the same events-interface object to every generation
+        # whose interface description did not change (the fresh reference always gets a pristine one)
+        reuse = directed or r.random() < 0.5
+        hist["same_interface_object"] = reuse
+        runner.itf_cache = {} if reuse else None
+        if reuse:
+            oc.stat("chains_reusing_the_interface_object")
         with e2e.in_cwd(cwd):
             runner.generate(model, outdir_arg)
             for step in range(steps):
@@ -44,7 +65,7 @@ def chain_case(runner, r, oc, reqs, pend, steps, kinds=("sm", "sm", "sm", "proto
                     if w:
                         edits[rel] = sorted(w)
                 hist["edits"].append(edits)
-                model, what = genlib.mutate_model(r, model)
+                model, what = genlib.mutate_model(r, model) if not (directed and step == 0) else drop_an_event(r, model)
                 hist["models"].append(model)
                 hist["mutations"].append(what)
                 oc.stat("mutation_" + what)
@@ -52,7 +73,11 @@ def chain_case(runner, r, oc, reqs, pend, steps, kinds=("sm", "sm", "sm", "proto
                 files_before = e2e.decode_tree(real)
                 # fresh generation of the new model into an empty directory (real code)
                 with scratch() as fb:
-                    runner.generate(model, os.path.join(fb, "o"))
+                    saved, runner.itf_cache = runner.itf_cache, None
+                    try:
+                        runner.generate(model, os.path.join(fb, "o"))
+                    finally:
+                        runner.itf_cache = saved
                     fresh_tree = e2e.snapshot(os.path.join(fb, "o"))
                 ret, fresh = runner.generate(model, outdir_arg)
                 after = e2e.snapshot(real)
@@ -74,6 +99,7 @@ def chain_case(runner, r, oc, reqs, pend, steps, kinds=("sm", "sm", "sm", "proto
                                                 dups_known=model["kind"] == "uml" and findings.uml_dup_known_shape(dups, model)), None))
                 else:
                     oc.corr_failures.append(dict(what="could not capture the fresh code model", history=hist))
+        runner.itf_cache = None
         oc.case(("chain", json.dumps(hist, sort_keys=True, default=str)), nontrivial=any(hist["edits"]))
         oc.stat("backend_" + model["backend"])
         if len(oc.samples) < 3:
@@ -85,7 +111,7 @@ def search():
     runner = genlib.Runner()
     oc = Outcome(PROP)
     for i in range(120):
-        chain_case(runner, r, oc, [], [], 3)
+        chain_case(runner, r, oc, [], [], 3, directed=i % 4 == 1)
         if oc.violations:
             return oc.violations[0]
     return None
@@ -105,7 +131,7 @@ def run(tier):
     reqs, pend = [], []
     n = 300 if thorough else 40
     for i in range(n):
-        chain_case(runner, r, oc, reqs, pend, r.choice([1, 2, 3, 4]) if thorough else r.choice([1, 2, 3]), big=thorough)
+        chain_case(runner, r, oc, reqs, pend, r.choice([1, 2, 3, 4]) if thorough else r.choice([1, 2, 3]), big=thorough, directed=i % 10 == 3)
         if oc.violations:
             break
     # a tree saved with CRLF line endings, then a model change: modulo the line terminator the result is what the LF copy gives
